@@ -118,6 +118,10 @@ def gen_elem(ex, p, it, call, k, k_skip):
                 return ex.call_closure(q2, st.fields[0], [e], call, lambda q3, r: run(q3, r, i + 1))
             if kind == 'enumerate':
                 return run(q2, Agg('()', None, (ex.fresh(f'index#{q2.seq("enum")}', 'usize'), e), 'tuple'), i + 1)
+            if kind == 'filter' and getattr(ex, 'opaque_filters', False):
+                # the predicate is analysed by its own obligation: here the element is one that passed it
+                q2.events.append(Event('filter-pass', vname(st.fields[0]), (e,), None, call.span, call.depth))
+                return run(q2, e, i + 1)
             if kind == 'filter':
                 def after(q3, b):
                     c_ = b if isinstance(b, z3.ExprRef) and z3.is_bool(b) else (b != z3.BitVecVal(0, b.size()) if isinstance(b, z3.ExprRef) else ex.to_bv(b, 8) != 0)
@@ -166,6 +170,7 @@ def gen_elem(ex, p, it, call, k, k_skip):
         T = generic_arg(ty, 0) or ''
         el = ex.fresh(f'{vname(c)}[#{tag}]', T)
         e0 = _ref(p, el) if byref else el
+    p.events.append(Event('elem', vname(c), (e0,), None, call.span, call.depth))
     with_src(p, e0)
 
 
@@ -235,6 +240,7 @@ def m_next(ex, p, call, k):
     p.pc.append(c_some)
     if isinstance(ptr, Ptr):
         ex.store(p, ptr, mk(src, mode, stages, y + 1, trav_of(it)))
+    p.events.append(Event('next', 'begin', (it,), None, call.span, call.depth))
 
     def got(q, item, e0):
         q.events.append(Event('next', 'Some', (item, e0, it), None, call.span, call.depth))
